@@ -497,6 +497,9 @@ CONTENTS = [
     ["text_at 0 1 61626364", "skip_at 0 2 2", "setpen fg=3", "erase_at 1 0 6", "skip_at 1 2 1", "char_at 2 0 65", "char_at 2 1 66", "char_at 2 5 67"],
     ["text_at 0 0 61efbca162", "text_at 1 1 78cc81797a", "text_at 2 0 e4b880e4b880e4b880"],
     ["setpen fg=2,u=1", "text_at 0 0 616263646566", "setpen bg=5", "text_at 0 2 7879", "setpen -", "hline 1 0 3 1 0", "setpen i=1", "erase_at 1 2 3", "text_at 2 1 717273"],
+    # line cells in pens that differ only by an RGB8 value on the same colour index (none / #000000 / #000001) or by an explicit default
+    ["setpen fg=0", "hline 0 0 5 1 0", "vline 0 2 1 1 0", "setpen fg=0#000000", "hline 1 0 3 1 0", "vline 0 2 4 1 0",
+     "setpen fg=0#000001", "hline 2 0 2 1 0", "setpen fg=0,b=0", "hline 2 3 5 1 0", "vline 1 2 3 2 0"],
 ]
 PROLOGUES = [
     [],
@@ -566,7 +569,7 @@ def exhaustive():
 lines = []
 if a.tier == "exhaustive":
     lines, n, nc = exhaustive()
-    info = {"histories": n, "exhaustive_bound": "3x6 buffer: %d contents (8 hand-made, the rest from a fixed stream) x {neutral state: copy and move; one auxiliary prologue: copy} x every source rectangle (126) x every destination position that keeps it inside the buffer (1274 pairs); hand-made contents: every move also with a 1x1 and a 3x6 destination rectangle" % nc}
+    info = {"histories": n, "exhaustive_bound": "3x6 buffer: %d contents (%d hand-made, the rest from a fixed stream) x {neutral state: copy and move; one auxiliary prologue: copy} x every source rectangle (126) x every destination position that keeps it inside the buffer (1274 pairs); hand-made contents: every move also with a 1x1 and a 3x6 destination rectangle" % (nc, len(CONTENTS))}
 else:
     N = 2600 if a.tier == "quick" else 12000
     for _ in range(N):
